@@ -4,6 +4,9 @@ mod alloc;
 mod interp;
 mod ops;
 mod probes;
+mod probes2;
+#[cfg(feature = "derive")]
+mod derive_gen;
 
 use std::io::{BufRead, Write};
 
@@ -111,6 +114,8 @@ fn main() {
             let mut cur: Option<ProgramSrc> = None;
             let mut running = false;
             let stdout = std::io::stdout();
+            let nthreads: usize = std::env::var("VERIF_THREADS").ok().and_then(|v| v.parse().ok()).unwrap_or(1);
+            let mut pending: Vec<ProgramSrc> = Vec::new();
             for line in stdin.lock().lines() {
                 let line = line.unwrap();
                 let toks: Vec<&str> = line.split_whitespace().collect();
@@ -159,10 +164,14 @@ fn main() {
                     "begin" => running = true,
                     "end" => {
                         if let Some(p) = cur.take() {
-                            run_program(p, &mut out);
-                            let mut lock = stdout.lock();
-                            for l in out.drain(..) {
-                                let _ = writeln!(lock, "{}", l);
+                            if nthreads <= 1 {
+                                run_program(p, &mut out);
+                                let mut lock = stdout.lock();
+                                for l in out.drain(..) {
+                                    let _ = writeln!(lock, "{}", l);
+                                }
+                            } else {
+                                pending.push(p);
                             }
                         }
                         running = false;
@@ -176,8 +185,42 @@ fn main() {
                     }
                 }
             }
+            if nthreads > 1 {
+                // independent programs on concurrently running threads (each program still gets its own thread,
+                // hence its own collector); output in program order
+                let n = pending.len();
+                let queue = std::sync::Arc::new(std::sync::Mutex::new(pending.into_iter().enumerate().collect::<Vec<_>>()));
+                let results = std::sync::Arc::new(std::sync::Mutex::new(vec![Vec::<String>::new(); n]));
+                let mut workers = Vec::new();
+                for _ in 0..nthreads {
+                    let queue = queue.clone();
+                    let results = results.clone();
+                    workers.push(std::thread::spawn(move || loop {
+                        let item = queue.lock().unwrap().pop();
+                        let Some((i, p)) = item else { break };
+                        let mut o = Vec::new();
+                        run_program(p, &mut o);
+                        results.lock().unwrap()[i] = o;
+                    }));
+                }
+                for w in workers {
+                    let _ = w.join();
+                }
+                let mut lock = stdout.lock();
+                for o in results.lock().unwrap().iter() {
+                    for l in o {
+                        let _ = writeln!(lock, "{}", l);
+                    }
+                }
+            }
         }
         "words" => probes::words(),
+        "containers" => probes2::containers(),
+        "layout" => probes2::layout(),
+        "forward" => probes2::forward(),
+        #[cfg(feature = "derive")]
+        "derive" => derive_gen::run(),
+        "teardown" => probes2::teardown(),
         "policy" => probes::policy(),
         other => {
             eprintln!("unknown mode {}", other);
